@@ -484,4 +484,35 @@ theorem Un.handshake' (s : Store K E) (h : Mirror s) (ks : List K) (hnd : ks.Nod
     apply List.map_congr_left; intro k _; simp [unAdj]
   rw [this, sum_map_add, ← hb]; omega
 
+/-! ### connect followed by disconnect -/
+
+theorem eraseKey_append_absent (l : List (K × E)) (k : K) (e : E) (h : vals l k = []) :
+    eraseKey (l ++ [(k, e)]) k = l := by
+  have h' := (vals_eq_nil_iff l k).1 h
+  unfold eraseKey
+  rw [List.eraseP_append_right _ (by intro b hb; simpa using h' b hb)]
+  simp [List.eraseP]
+
+/-- adding an edge `u→v` where there was none and disconnecting it again gives back the value and leaves
+    every list of every node exactly as it was -/
+theorem Di.connect_disconnect' (s : Store K E) (h : Mirror s) (u v : K) (e : E)
+    (hn : vals (s.get u).out v = []) :
+    (Di.disconnect (connect s u v e) u v).2 = .val e ∧
+    ∀ w, ((Di.disconnect (connect s u v e) u v).1.get w).out = (s.get w).out ∧
+         ((Di.disconnect (connect s u v e) u v).1.get w).inn = (s.get w).inn := by
+  have hm := connect_mirror s u v e h
+  have hc := connect_spec' s u v e
+  have hv : vals ((connect s u v e).get u).out v = e :: [] := by
+    rw [(hc u).1]; simp only [if_true, vals_append, hn]; simp [vals]
+  have hd := Di.disconnect_found' (connect s u v e) hm u v e [] hv
+  refine ⟨hd.1, fun w => ?_⟩
+  have hni : vals (s.get v).inn u = [] := by rw [← h u v]; exact hn
+  rw [(hd.2 w).1, (hd.2 w).2, (hc w).1, (hc w).2]
+  constructor
+  · by_cases hw : w = u
+    · subst hw; simp only [if_true]; exact eraseKey_append_absent _ _ _ hn
+    · simp [hw]
+  · by_cases hw : w = v
+    · subst hw; simp only [if_true]; exact eraseKey_append_absent _ _ _ hni
+    · simp [hw]
 end G
